@@ -390,6 +390,17 @@ def replay(path, seed):
     print(json.dumps(d, indent=1)[:4000])
     binary, err = vlib.build_harness()
     s = d.get("input")
+    if isinstance(s, dict) and "unit" in s and "depth" in s:
+        # a deep-nesting counterexample: re-run that nesting in a child process
+        unit = s["unit"]
+        close = ")" if unit.endswith("(") else ""
+        stack = 0 if s.get("stack_bytes", MAIN_STACK) >= MAIN_STACK else s["stack_bytes"]
+        rc, obs = deep_case(binary, unit, close, s["depth"], stack, _main_stack_limit())
+        print(f"deep nesting unit={unit!r} depth={s['depth']} stack={s.get('stack_bytes')}: rc={rc} obs={obs}")
+        okay = rc == 0 and obs and obs.get("ok") and obs.get("reparse_ok") and obs.get("same_print")
+        if not okay:
+            print("FAILS: oracle:total / oracle:deep-roundtrip")
+        return 0 if okay else 1
     if not isinstance(s, str):
         return 0
     status = F.finding_status()
